@@ -2,6 +2,7 @@
 // one node for the whole run; deallocation marks the record dead), fault injection into user functors (comparator,
 // hasher, key_equal, element constructor, allocator), scenario parsing, schedule modes.
 #pragma once
+#include "verif_hb.h"
 #include <cstdint>
 #include <cstdio>
 #include <cstring>
@@ -66,6 +67,9 @@ struct Elem {
 // --- bump arena: addresses are never re-used inside a run; deallocation only marks the record dead ------------
 struct AllocRec { size_t off, bytes; int tag; int dead = 0; int tid = -1, op = -1; };     // tag: 1 = list node, 2 = other (segments, tables)
 struct Arena {
+    static constexpr uint64_t HB_CELL0 = 1000000;
+    // a thread reads an element it obtained from the container (find / iteration / the iterator returned by insert)
+    void hb_read(const void* p) const { long i = find(p); if (i >= 0) verif::note("gr", HB_CELL0 + (uint64_t)i); }
     static constexpr size_t SIZE = size_t(256) << 20;
     char* base = nullptr; size_t top = 0; std::vector<AllocRec> recs;
     std::vector<std::string> errors;                   // double / unknown deallocations
@@ -77,6 +81,7 @@ struct Arena {
         if (top + bytes > SIZE) { fprintf(stderr, "arena exhausted\n"); abort(); }
         void* p = base + top; recs.push_back({top, bytes, tag, 0, t_tid, t_op}); top += bytes;
         memset(p, 0, bytes);
+        verif::note("gw", HB_CELL0 + recs.size() - 1);          // happens-before ghost: the allocating thread initialises the block before it publishes it
         return p;
     }
     void dealloc(const void* p) {
@@ -85,6 +90,7 @@ struct Arena {
         if (recs[i].dead) { errors.push_back("allocation #" + std::to_string(i) + " deallocated twice"); recs[i].dead++; return; }
         if (on_dealloc) on_dealloc((size_t)i);
         recs[i].dead = 1;
+        verif::note("gw", HB_CELL0 + (uint64_t)i);              // every read of the block must happen before its deallocation
     }
     bool contains(const void* p) const { return (const char*)p >= base && (const char*)p < base + top; }
     // index of the allocation record containing p (or -1)
